@@ -930,7 +930,16 @@ func smtReal(name string) string {
 	return s
 }
 
+// printRename maps the names of free and bound variables (and of string-literal symbols) to per-query canonical
+// names: the counters of fresh names are renumbered densely per query, so that the text of a query depends only on
+// the obligation, not on how many fresh names other functions consumed before. Set by Script, kept until the next
+// Script call (the replay module prints further terms against the last query).
+var printRename map[string]string
+
 func symName(n string) string {
+	if r, ok := printRename[n]; ok {
+		n = r
+	}
 	return "|" + n + "|"
 }
 
@@ -1000,7 +1009,11 @@ func strLitSym(s string) string {
 		strLitIDs[s] = id
 		strLitOrd = append(strLitOrd, s)
 	}
-	return fmt.Sprintf("strlit!%d", id)
+	nm := fmt.Sprintf("strlit!%d", id)
+	if r, ok := printRename[nm]; ok {
+		return r
+	}
+	return nm
 }
 
 // collect walks the term DAG
@@ -1084,6 +1097,39 @@ func Script(asserts []*Term, prelude string, extraDecls func(used map[string]boo
 		lits = append(lits, s)
 	}
 	sort.Strings(lits)
+	// per-query canonical names
+	printRename = nil
+	{
+		ren := map[string]string{}
+		cnt := map[string]int{}
+		for _, v := range vars {
+			base := canonName(v.Name)
+			if base == v.Name {
+				continue // no counter in the name
+			}
+			cnt[base]++
+			ren[v.Name] = fmt.Sprintf("%s!%d", base, cnt[base])
+		}
+		// bound variables, in order of first occurrence
+		bc := map[string]int{}
+		for _, t := range order {
+			if t.Op == "forall" || t.Op == "exists" {
+				for _, b := range t.Bound {
+					if _, done := ren[b.Name]; done {
+						continue
+					}
+					base := canonName(b.Name)
+					if base == b.Name {
+						continue
+					}
+					bc[base]++
+					ren[b.Name] = fmt.Sprintf("%s?%d", base, bc[base])
+				}
+			}
+		}
+		// (string-literal symbols keep their global numbers: table definitions are cached as text)
+		printRename = ren
+	}
 	for _, s := range lits {
 		fmt.Fprintf(&sb, "(declare-const %s Str) ; %q\n", strLitSym(s), s)
 	}
